@@ -42,14 +42,18 @@ func runC15(cx *ctx) {
 	}
 	g := &c15Gen{cx: cx, e: e, r: cx.rng}
 	g.paths()
-	g.roundtrips()
-	g.outputFailures()
-	g.damaged()
-	g.sameFile()
-	g.flagCombos()
-	g.stdinUses()
-	g.misc()
-	g.keygen()
+	// the thorough tier walks the full products several times with fresh random choices
+	for round := 0; round < cx.n(1, 5); round++ {
+		g.roundtrips()
+		g.outputFailures()
+		g.damaged()
+		g.sameFile()
+		g.flagCombos()
+		g.stdinUses()
+		g.misc()
+		g.keygen()
+		g.terminal()
+	}
 	e.wg.Wait()
 }
 
@@ -79,7 +83,7 @@ func (g *c15Gen) keep(quickOneIn int) bool {
 	if !g.cx.quick || quickOneIn <= 1 {
 		return true
 	}
-	return g.r.Intn(quickOneIn) == 0
+	return g.r.Intn((quickOneIn+1)/2) == 0
 }
 
 // ---------- the lexical path model against path/filepath ----------
@@ -97,7 +101,7 @@ func (g *c15Gen) paths() {
 		}
 		return sb.String()
 	}
-	n := g.cx.n(400, 6000)
+	n := g.cx.n(600, 12000)
 	for i := 0; i < n; i++ {
 		rr := g.r.Fork()
 		g.cx.ru.Do(func() *h.Case {
@@ -1268,6 +1272,176 @@ func (g *c15Gen) keygen() {
 	many(func(r *h.Rand) *cliCase {
 		c := gen("keygen-version")
 		c.flags, c.sumMode, c.checkOut, c.wantOut, c.note = "v", "hash", nil, e.verLine, "-version"
+		return c
+	})
+}
+
+// ---------- runs with a (pseudo) terminal: passphrases, output to a terminal ----------
+
+func (g *c15Gen) terminal() {
+	e := g.e
+	if !e.pty {
+		return
+	}
+	key := e.keys[0]
+	reps := g.cx.n(1, 2)
+	many := func(mk func(r *h.Rand) *cliCase) {
+		for i := 0; i < reps; i++ {
+			g.do(mk)
+		}
+	}
+	scryptLen := func(n int, armored bool) int {
+		sr, err := age.NewScryptRecipient("x")
+		if err != nil {
+			panic(err)
+		}
+		sr.SetWorkFactor(10) // "10" and the CLI's "18" take the same room in the header
+		return len(libEncrypt([]age.Recipient{sr}, make([]byte, n), armored))
+	}
+	// -p: the passphrase is asked on /dev/tty (costly: scrypt with work factor 18)
+	for _, outMode := range []string{"file", "stdout", "existing"} {
+		outMode := outMode
+		if !g.keep(2) {
+			continue
+		}
+		g.do(func(r *h.Rand) *cliCase {
+			pt := r.Bytes(h.Pick(r, []int{0, 1, 1000}))
+			armored := r.Bool()
+			c := newCase("tty-p-encrypt")
+			c.flags, c.sumMode = "p", "len"
+			if armored {
+				c.flags += "a"
+			}
+			c.setInput(h.Pick(r, []string{"file", "stdin"}), "in.bin", pt)
+			c.setOutput(outMode, "out.age")
+			c.tty = &ttySpec{answers: []string{"hunter2 hunter2", "hunter2 hunter2"}}
+			c.passOK, c.ctLen, c.expect = true, scryptLen(len(pt), armored), "ok"
+			c.checkOut = func(out []byte) string {
+				id, _ := age.NewScryptIdentity("hunter2 hunter2")
+				refused, got, failed := libDecrypt(out, id)
+				if refused || failed || !bytes.Equal(got, pt) {
+					return "the output does not decrypt to the input with the passphrase typed"
+				}
+				return ""
+			}
+			c.note = fmt.Sprintf("-p with the passphrase typed twice, %d bytes, armor=%v, out=%s", len(pt), armored, outMode)
+			return c
+		})
+	}
+	for _, outMode := range []string{"file", "existing", "stdout"} {
+		outMode := outMode
+		many(func(r *h.Rand) *cliCase {
+			c := newCase("tty-p-mismatch")
+			c.flags, c.sumMode = "p", "len"
+			c.setInput("file", "in.bin", r.Bytes(10))
+			c.setOutput(outMode, "out.age")
+			c.tty = &ttySpec{answers: []string{"one", "two"}}
+			c.passOK, c.expect, c.note = false, "fail", "-p with a confirmation that differs; out="+outMode
+			return c
+		})
+	}
+	many(func(r *h.Rand) *cliCase {
+		c := newCase("tty-p-samefile")
+		c.flags, c.sumMode = "p", "len"
+		c.files["x"] = file(r.Bytes(10), 0644)
+		c.pos, c.out = []string{"x"}, h.Pick(r, c15Spellings)
+		c.tty = &ttySpec{answers: []string{"pw", "pw"}}
+		c.passOK, c.expect, c.note = true, "samefile", "-p with the output naming the input as "+c.out
+		return c
+	})
+	// decrypting a passphrase-protected file
+	for _, good := range []bool{true, false} {
+		for _, outMode := range []string{"file", "existing", "existing-ro", "stdout"} {
+			good, outMode := good, outMode
+			many(func(r *h.Rand) *cliCase {
+				c := newCase("tty-scrypt-decrypt")
+				c.flags = "d"
+				c.setInput(h.Pick(r, []string{"file", "stdin"}), "in.age", e.scrypt)
+				c.setOutput(outMode, "out.bin")
+				if good {
+					c.tty = &ttySpec{answers: []string{"correct horse"}}
+					c.dec, c.pt, c.expect, c.wantOut = "k", []byte("secret"), "ok", []byte("secret")
+				} else {
+					c.tty = &ttySpec{answers: []string{"wrong horse"}}
+					c.dec, c.expect = "r", "refused"
+				}
+				c.note = fmt.Sprintf("passphrase-protected input, right passphrase typed: %v, out=%s", good, outMode)
+				return c
+			})
+		}
+	}
+	// standard output is a terminal
+	many(func(r *h.Rand) *cliCase {
+		pt := []byte("plain text for the terminal, " + fmt.Sprint(r.Intn(1000)))
+		c := g.decCase("tty-stdout-decrypt", key, libEncrypt([]age.Recipient{key.rec}, pt, r.Bool()), pt, "file", "stdout")
+		c.tty = &ttySpec{stdoutTTY: true}
+		return c
+	})
+	for _, v := range []string{"binary", "armor", "dash"} {
+		v := v
+		many(func(r *h.Rand) *cliCase {
+			c := g.encCase("tty-stdout-encrypt", key, "r", v == "armor", r.Bytes(100), "file", "stdout")
+			c.tty = &ttySpec{stdoutTTY: true}
+			switch v {
+			case "binary":
+				c.expect, c.checkOut = "fail", nil
+			case "dash":
+				c.out = "-"
+			}
+			c.note += " | standard output is a terminal: " + v
+			return c
+		})
+	}
+	// terminal to terminal: the armored input is typed, the output is held back until the end
+	for _, v := range []string{"ok", "payload"} {
+		v := v
+		if v == "payload" && g.cx.quick {
+			continue
+		}
+		many(func(r *h.Rand) *cliCase {
+			pt := []byte("typed and shown " + fmt.Sprint(r.Intn(1000)))
+			if v == "payload" {
+				pt = bytes.Repeat([]byte("0123456789abcdef"), C/16+1)
+			}
+			ct := libEncrypt([]age.Recipient{key.rec}, pt, false)
+			if v == "payload" {
+				ct[len(ct)-5] ^= 1 // second chunk
+			}
+			var ab bytes.Buffer
+			aw := armor.NewWriter(&ab)
+			aw.Write(ct)
+			aw.Close()
+			c := g.decCase("tty-to-tty-"+v, key, ab.Bytes(), pt, "stdin", "stdout")
+			c.stdin = nil
+			c.tty = &ttySpec{stdinTTY: true, stdoutTTY: true, typed: ab.Bytes()}
+			c.note += " | typed on a terminal, shown on the terminal"
+			return c
+		})
+	}
+	// terminal to terminal, encrypting: the output is held back until the input ends (^D)
+	many(func(r *h.Rand) *cliCase {
+		pt := []byte(fmt.Sprintf("a line typed at the terminal %d\nand another\n", r.Intn(1000)))
+		c := g.encCase("tty-to-tty-encrypt", key, "r", true, pt, "stdin", "stdout")
+		c.stdin = nil
+		c.tty = &ttySpec{stdinTTY: true, stdoutTTY: true, typed: append(nonNil(pt), 4)}
+		c.note += " | typed on a terminal, shown on the terminal"
+		return c
+	})
+	// age-keygen to a terminal
+	many(func(r *h.Rand) *cliCase {
+		c := newCase("tty-keygen")
+		c.keygenBin, c.sumMode, c.expect = true, "len", "ok"
+		c.tty = &ttySpec{stdoutTTY: true}
+		c.checkOut = func(out []byte) string {
+			if len(out) != e.keyLen {
+				return fmt.Sprintf("the terminal got %d bytes, a key file has %d", len(out), e.keyLen)
+			}
+			if _, err := age.ParseIdentities(bytes.NewReader(out)); err != nil {
+				return "what the terminal got does not parse as a key file"
+			}
+			return ""
+		}
+		c.note = "age-keygen with a terminal as standard output"
 		return c
 	})
 }
